@@ -5,6 +5,7 @@ oracle = the struct module (with '@' mapped to '=': standard sizes, no padding -
 from __future__ import annotations
 
 import array
+import io
 import itertools
 import math
 import struct
@@ -168,6 +169,12 @@ def pairs(bs, acc, p):
         check_pack(bs, acc, p + '2' + a + b, sfmt(p, '2' + a + b), (va[0], va[-1], vb[0]))
         check_pack(bs, acc, f"{p}{a}, {p}{b}", sfmt(p, a + b), (va[1], vb[-1]))
         check_pack(bs, acc, f"2*{p}{a}{b}", sfmt(p, a + b + a + b), (va[1], vb[-1], va[-1], vb[0]))
+        if SIZE[a] == SIZE[b]:
+            # the same format string used by another consumer in between (Array.pp takes two tokens of equal width): it must still mean the same
+            fmt2 = p + a + b
+            obs(lambda: bs.Array(p + a, [va[0]]).pp(fmt2, stream=io.StringIO()))
+            obs(lambda: bs.Bits(8 * SIZE[a]).pp(fmt2, stream=io.StringIO()))
+            check_pack(bs, acc, fmt2, sfmt(p, a + b), (va[-1], vb[0]))
     acc.sample(dict(prefix=p, event="pack(p + 'hQ', ...), pack('2*' + p + 'bH', ...) against struct"))
 
 
